@@ -152,6 +152,27 @@ theorem delegation_missing_is_zero (w : World) (del : Acct) (v : ValId) (d : Den
   unfold qDelegation
   simp only [hv, ha, hd]
 
+/-- the contract binding reports the same balance as the gRPC query for an existing position -/
+theorem binding_balance_equals_grpc_balance (w : World) (del : Acct) (v : ValId) (d : Denom) (b : Int)
+    (sv : SVal) (a : Asset) (dl : Delegation) (hv : AL.get w.staking.vals v = some sv) (ha : getAsset w d = some a)
+    (hd : getDelegation w del v d = some dl) :
+    bDelegation w del v d = .ok b ↔ qDelegation w del v d = .ok (dl.shares, b) := by
+  unfold bDelegation qDelegation
+  simp only [hv, ha, hd]
+  cases delegationTokensWithShares dl.shares ((AL.get w.vals v).getD ValInfo.empty) a with
+  | ok b' =>
+    constructor
+    · intro h; injection h with h; subst h; rfl
+    · intro h; injection h with h; injection h with _ h2; subst h2; rfl
+  | error e => constructor <;> (intro h; cases h)
+
+/-- …but a MISSING position is an error for the binding and a zero for the gRPC query -/
+theorem binding_differs_on_missing_position (w : World) (del : Acct) (v : ValId) (d : Denom) (sv : SVal) (a : Asset)
+    (hv : AL.get w.staking.vals v = some sv) (ha : getAsset w d = some a) (hd : getDelegation w del v d = none) :
+    bDelegation w del v d = .error (.err "no_delegation") ∧ qDelegation w del v d = .ok (0, 0) := by
+  unfold bDelegation qDelegation
+  simp only [hv, ha, hd, and_self]
+
 /-- refutation witness (known finding): unbondings of a deleted alliance are not reported by the per-delegator query -/
 def exDeleted : World := { (default : World) with
   undelQueue := [((100, 10), [{ del := 10, val := 0, denom := 0, amount := 5 }])]
